@@ -299,3 +299,12 @@ def a6(ctx):
 
 
 RULES.append(a6)
+
+
+@rule("A6b", doc="analysis data is read through the canonical class: find_id chases the whole union-find chain (shared with C13.T10)")
+def a6b(ctx):
+    from . import c13
+    c13.t10(ctx)
+
+
+RULES.append(a6b)
